@@ -56,6 +56,7 @@ pub struct Case {
     pub text: String,
     pub inputs: Vec<String>,
     pub lex: (bool, bool), // ms, lm
+    pub fancy: bool,
 }
 
 pub fn emit_case(krate: &mut Crate, case: &Case, rep: &mut Rep) {
@@ -63,7 +64,7 @@ pub fn emit_case(krate: &mut Crate, case: &Case, rep: &mut Rep) {
         for gen_table in [0u8, 1] {
             let m = format!("g{}", krate.modules.len());
             // LR: prefer shifts so that more grammars are deterministic; GLR: defaults
-            let spec = SetSpec { glr, gen_table, ps: if glr { None } else { Some(true) }, ms: case.lex.0, lm: case.lex.1, ..Default::default() };
+            let spec = SetSpec { glr, gen_table, ps: if glr { None } else { Some(true) }, ms: case.lex.0, lm: case.lex.1, fancy: case.fancy, ..Default::default() };
             let c = generate_into(&krate.src(), &m, &case.text, &spec);
             let (Outcome::Ok, Some(d)) = (&c.outcome, &c.dump) else {
                 rep.count("not_generated", 1);
@@ -110,13 +111,13 @@ pub fn gen_case(rng: &mut Rng, i: usize) -> Option<Case> {
                     }
                 }
             }
-            Some(Case { origin: "bnf".into(), text: g.text(), inputs, lex: (true, true) })
+            Some(Case { origin: "bnf".into(), text: g.text(), inputs, lex: (true, true), fancy: false })
         }
         2 => {
             let lg = gen_lex(rng);
             let mut inputs = all_inputs(&alphabet(&lg), 3);
             inputs.truncate(120);
-            Some(Case { origin: "lex".into(), text: lg.text(), inputs, lex: (rng.chance(0.5), rng.chance(0.5)) })
+            Some(Case { origin: "lex".into(), text: lg.text(), inputs, lex: (rng.chance(0.5), rng.chance(0.5)), fancy: false })
         }
         _ => {
             let g = gen_bnf(rng, &BnfOpts::default());
@@ -136,7 +137,7 @@ pub fn gen_case(rng: &mut Rng, i: usize) -> Option<Case> {
                 }
             }
             inputs.push("/* x".into());
-            Some(Case { origin: "layout".into(), text: grammar_text(&g, fam), inputs, lex: (true, true) })
+            Some(Case { origin: "layout".into(), text: grammar_text(&g, fam), inputs, lex: (true, true), fancy: false })
         }
     }
 }
@@ -154,6 +155,7 @@ pub fn main(a: &Args) {
             text: info["grammar"].as_str().unwrap().to_string(),
             inputs: info["inputs"].as_array().unwrap().iter().map(|x| x.as_str().unwrap().to_string()).collect(),
             lex: (info["settings"]["ms"].as_bool().unwrap_or(true), info["settings"]["lm"].as_bool().unwrap_or(true)),
+            fancy: info["settings"]["fancy"].as_bool().unwrap_or(false),
         };
         emit_case(&mut krate, &case, &mut rep);
     } else {
@@ -164,8 +166,16 @@ pub fn main(a: &Args) {
                 for w in all_strings(g.terms.len(), len_for(g.terms.len(), 3, 40)) {
                     inputs.push(render_plain(&g, &w).0);
                 }
-                emit_case(&mut krate, &Case { origin: name, text: g.text(), inputs, lex: (true, true) }, &mut rep);
+                emit_case(&mut krate, &Case { origin: name, text: g.text(), inputs, lex: (true, true), fancy: false }, &mut rep);
             }
+        }
+        if a.shard == 3 {
+            // fancy_regex recognisers (look-ahead, back-reference) incl. an input on which the matcher gives up
+            // (backtrack limit): "not recognised" like any other failure, in the generated recogniser as in route D
+            let text = "S: Item+;\nItem: Key Colon Num | Word | Twice;\nterminals\nKey: /(?:\\w+[.-]?)+(?=:)/;\nColon: ':';\nNum: /\\d+/;\nTwice: /(\\w)\\1!/;\nWord: /[a-z]+/;\n";
+            let inputs: Vec<String> = ["ab: 1", "ab cd", "x.y-z: 7 q", "aa! b", "aaaaaaaaaaaaaaaaaaaaaaaaaaaaaaaaaaaaaaaaaaaa", "a.b.c.d.e.f.g.h.i.j.k.l.m.n.o.p.q.r.s.t.u.v.w.x.y.z.a.b.c.d q", "ab:", ": 1", ""].iter().map(|x| x.to_string()).collect();
+            emit_case(&mut krate, &Case { origin: "fancy".into(), text: text.into(), inputs, lex: (true, true), fancy: true }, &mut rep);
+            rep.count("fancy_regex_cases", 1);
         }
         if a.shard == 1 {
             // tables with hundreds of states and dozens of terminals / non-terminals (enum sizes, wide rows, long match arms)
@@ -190,7 +200,7 @@ pub fn main(a: &Args) {
                     }
                 }
                 let before = krate.modules.len();
-                emit_case(&mut krate, &Case { origin: "big".into(), text: g.text(), inputs, lex: (true, true) }, &mut rep);
+                emit_case(&mut krate, &Case { origin: "big".into(), text: g.text(), inputs, lex: (true, true), fancy: false }, &mut rep);
                 if krate.modules.len() > before {
                     rep.count("big_family_cases", 1);
                     made_big += 1;
